@@ -171,6 +171,14 @@ class _KalEval:
             return A.neg(self.ev(node.operand))
         if isinstance(node, ast.Attribute) and node.attr == 'T':
             return A.T(self.ev(node.value))
+        if isinstance(node, ast.Subscript):
+            base = self.ev(node.value)
+            if isinstance(base, tuple) and base[0] == 'cho' and \
+                    isinstance(node.slice, ast.Constant) and node.slice.value in (0, 1):
+                if node.slice.value == 0:
+                    return base[1]
+                raise AnalysisError('kalman: triangle flag of a cho_factor result used as a value')
+            raise AnalysisError('kalman: subscript `%s`' % norm_text(node))
         if isinstance(node, ast.Call):
             fn = node.func
             q = self.res(fn)
@@ -193,31 +201,51 @@ class _KalEval:
                 (m, _), = Sat.t.items()
                 fname = 'chol(%s)' % m[0][0]
                 self.chol[fname] = (S, Sat, lower, node)
-                self.flags.append(('cholesky', node, lower, fname))
+                self.flags.append(('cholesky', node, lower, fname, lower))
                 return A.atom(fname)
+            if q == 'scipy.linalg.cho_factor':
+                S = self.ev(node.args[0])
+                lower = self.kw(node, 'lower', 1, default=False)
+                Sat = self.name_S(S, node)
+                (m, _), = Sat.t.items()
+                fname = 'chol(%s)' % m[0][0]
+                self.chol[fname] = (S, Sat, lower, node)
+                self.flags.append(('cho_factor', node, lower, fname, lower))
+                return ('cho', A.atom(fname), lower)
             if q == 'scipy.linalg.cho_solve':
                 c = node.args[0]
-                if not (isinstance(c, ast.Tuple) and len(c.elts) == 2):
-                    raise AnalysisError('kalman: cho_solve factor argument')
-                Lv = self.ev(c.elts[0])
-                lower = self.const_bool(c.elts[1])
-                fname = self._factor_name(Lv)
-                self.flags.append(('cho_solve', node, lower, fname))
+                if isinstance(c, ast.Tuple) and len(c.elts) == 2:
+                    Lv = self.ev(c.elts[0])
+                    lower = self.const_bool(c.elts[1])
+                else:
+                    cv = self.ev(c)
+                    if not (isinstance(cv, tuple) and cv[0] == 'cho'):
+                        raise AnalysisError('kalman: cho_solve factor argument')
+                    Lv, lower = cv[1], cv[2]
+                fname, tr = self._factor_name(Lv)
+                tri = self.chol[fname][2]
+                # the triangle that holds the factor in the array passed
+                self.flags.append(('cho_solve', node, lower, fname, tri if not tr else not tri))
                 S, Sat, _, _ = self.chol[fname]
                 inv = self._inv_of(Sat)
                 return A.mul(inv, self.ev(node.args[1]))
             if q == 'scipy.linalg.solve_triangular':
                 Lv = self.ev(node.args[0])
-                lower = self.kw(node, 'lower', None, default=False)
-                trans = self.kw(node, 'trans', None, default=0)
-                fname = self._factor_name(Lv)
-                self.flags.append(('solve_triangular', node, lower, fname))
-                if trans not in (0, 'N'):
+                lower = self.kw(node, 'lower', 3, default=False)
+                trans = self.kw(node, 'trans', 2, default=0)
+                fname, tr = self._factor_name(Lv)
+                tri = self.chol[fname][2]
+                self.flags.append(('solve_triangular', node, lower, fname,
+                                   tri if not tr else not tri))
+                if trans not in (0, 'N', 1, 'T', 2, 'C'):
                     raise AnalysisError('kalman: solve_triangular trans')
                 if fname not in A.inverse:
                     A.inverse[fname] = 'inv(%s)' % fname
                     A.inverse['inv(%s)' % fname] = fname
-                return A.mul(A.atom('inv(%s)' % fname), self.ev(node.args[1]))
+                Minv = A.atom('inv(%s)' % fname)
+                if tr != (trans not in (0, 'N')):
+                    Minv = A.T(Minv)
+                return A.mul(Minv, self.ev(node.args[1]))
             if q in ('numpy.linalg.solve', 'scipy.linalg.solve'):
                 S = self.ev(node.args[0])
                 Sat = self.name_S(S, node)
@@ -230,10 +258,11 @@ class _KalEval:
         raise AnalysisError('kalman: expression %s' % type(node).__name__)
 
     def _factor_name(self, Lv):
-        if len(Lv.t) == 1:
+        """(factor atom, passed transposed?)"""
+        if isinstance(Lv, NC) and len(Lv.t) == 1:
             (m, c), = Lv.t.items()
-            if c == 1 and len(m) == 1 and m[0][0] in self.chol and not m[0][1]:
-                return m[0][0]
+            if c == 1 and len(m) == 1 and m[0][0] in self.chol:
+                return m[0][0], bool(m[0][1])
         raise AnalysisError('kalman: triangular solve on something that is not a Cholesky '
                             'factor')
 
@@ -297,13 +326,14 @@ def kal_rules(ctx):
     K = A.mul(A.mul(at(P), A.T(at(H))), Sinv)
     e = A.sub(at(z), A.mul(at(H), at(x)))
     # flags
-    for kind, node, fl, fn in E.flags:
-        ctx.ob('KAL-FLAGS', fl is True and fn == fname, None,
-               '%s uses the lower triangle of the one factor' % kind, f=f, node=node,
-               why='%s is called with lower=%r on %s: the factor is computed as lower '
-                   'triangular; mixing triangles whitens/solves with the wrong matrix '
-                   '(invisible when S is diagonal)' % (kind, fl, fn))
-    kinds = [k for k, _, _, _ in E.flags]
+    for kind, node, fl, fn, holds in E.flags:
+        ctx.ob('KAL-FLAGS', fl is holds and fn == fname, None,
+               '%s reads the triangle that holds the one factor' % kind, f=f, node=node,
+               why='%s is called with lower=%r on %s, whose factor is in the %s triangle of '
+                   'the array passed: mixing triangles whitens/solves with the wrong matrix '
+                   '(invisible when S is diagonal)'
+                   % (kind, fl, fn, 'lower' if holds else 'upper'))
+    kinds = [k for k, _, _, _, _ in E.flags]
     ctx.floor('KAL-FLAGS', len(kinds), 3, 'factor uses')
     # state
     r0 = rets[0][1]
@@ -321,10 +351,16 @@ def kal_rules(ctx):
     # innovation
     r2 = rets[2][1]
     Linv = at('inv(%s)' % fname)
-    ctx.ob('KAL-RESID', A.eq(r2, A.mul(Linv, e)), None,
+    if fname not in A.inverse:
+        A.inverse[fname] = 'inv(%s)' % fname
+        A.inverse['inv(%s)' % fname] = fname
+    if not lower:
+        Linv = A.T(Linv)          # S = U^T U: the lower factor is U^T
+    ctx.ob('KAL-RESID', isinstance(r2, NC) and A.eq(r2, A.mul(Linv, e)), None,
            'innovation == L^-1 (z - H x)', f=f, node=rets[2][0], key='innovation',
            why='returned innovation is %s, not the residual z - H x whitened by the lower '
-               'Cholesky factor of its covariance' % r2.key()[:200])
+               'Cholesky factor of its covariance (chol(S) here is the %s factor)'
+               % (r2.key()[:200] if isinstance(r2, NC) else r2, 'lower' if lower else 'upper'))
 
 
 # ------------------------------------------------------------------- Van Loan
